@@ -11,7 +11,10 @@
     Expression.marginalize / normalize_marginalize                     `marginalize`, `normalizeMarginalize`
 
   (The `expr` family models the whole DSL in Y0.Model.Dsl; this file is the self-contained subset the
-  identification algorithms need.)  Core Lean only.
+  identification algorithms need.  Y0/Lemmas/IdDslAgree*.lean prove that the two are the same functions on every
+  constructible expression — `exprLt_eq_ltE`, `productSafe_agree`, `sumSafe_agree`, `mul_agree`, `div_agree`,
+  `normalizeMarginalize_agree` — and that every expression ID / IDC build is constructible: `idAlg_keyOk`.)
+  Core Lean only.
 -/
 import Y0.Model.Expr
 
